@@ -260,14 +260,13 @@ fn manifest_yaml_ex_buf(
 					}
 					_ => buf.push(' '),
 				}
-				let extra_padding = match &item {
-					Val::Arr(a) => !a.is_empty(),
-					Val::Obj(o) => !o.is_empty(),
-					_ => false,
-				};
 				let prev_len = cur_padding.len();
-				if extra_padding {
-					cur_padding.push_str(&options.padding);
+				match &item {
+					Val::Arr(a) if !a.is_empty() => cur_padding.push_str(&options.padding),
+					// The first field is written right after "- ", the following ones
+					// have to line up with it whatever the configured padding is
+					Val::Obj(o) if !o.is_empty() => cur_padding.push_str("  "),
+					_ => {}
 				}
 				in_description_frame(
 					|| format!("elem <{i}> manifestification"),
